@@ -256,7 +256,10 @@ class SR:
         s = z3.simplify(self.t)
         if z3.is_int_value(s):
             return s.as_long()
-        raise SymbolicBranch("symbolic value used as an index / range bound: %s" % s)
+        iv = int_view(self.t)
+        if iv is None:
+            raise SymbolicBranch("non-integer symbolic value used as an index / range bound: %s" % str(s)[:160])
+        return ctx.concretize_int(iv)
 
     def __int__(self):
         return self.__index__()
